@@ -105,6 +105,43 @@ def pump_for(rule, reps, amap, pivot=None):
     return to(pre), to(cyc)
 
 
+def eda_witness(rule, reps, amap, pivot):
+    """shortest word w with two DIFFERENT paths pivot -w-> pivot (the product-automaton path TLC found, recomputed
+    with the word): returns (prefix, w) as strings or None"""
+    from collections import deque
+    out = {}
+    for (p, at, pid, q) in rule['edges']:
+        cs = amap[id(at)]
+        if cs:
+            out.setdefault(p, []).append((q, pid, cs))
+    start = (pivot, pivot, False)
+    dq = deque([(start, [])])
+    seen = {start}
+    word = None
+    while dq:
+        (a, b, div), w = dq.popleft()
+        if w and div and a == pivot and b == pivot:
+            word = w
+            break
+        if len(w) > 60:
+            continue
+        for (q1, e1, c1) in out.get(a, []):
+            for (q2, e2, c2) in out.get(b, []):
+                both = c1 & c2
+                if not both:
+                    continue
+                st = (q1, q2, div or e1 != e2)
+                if st in seen:
+                    continue
+                seen.add(st)
+                dq.append((st, w + [min(both)]))
+    if word is None:
+        return None
+    pp = pump_for(rule, reps, amap, pivot)
+    pre = pp[0] if pp else ''
+    return pre, ''.join(chr(reps[c - 1]) for c in word)
+
+
 def cpu_time(fn, repeat=3):
     best = None
     for _ in range(repeat):
@@ -182,6 +219,9 @@ def run(ctx):
         pivots = [p for (rr, p) in bad if rr == ri + 1] or [None]
         for pv in pivots[:3]:
             pp = pump_for(r, reps, amap, pv)
+            if pv is not None:
+                # the pump of a flagged pivot is the AMBIGUOUS word (two ways back to the pivot), not just any cycle
+                pp = eda_witness(r, reps, amap, pv) or pp
             if pp is None:
                 continue
             pre, cyc = pp
